@@ -14,10 +14,11 @@ MANIFEST = {
     "level_claimed": {
         "category": "model_checking",
         "text": "TLC enumerates every handshake of the abstract model: 1..2 (thorough 3) ordered credentials per user name out "
-                "of {empty, clear p1, clear p2, '*'-hash p1, '*'-hash p2}, plugin field in {none, mysql_native_password, "
+                "of {empty, clear p1, clear p2, '*'-hash p1, '*'-hash p2, clear texts that look like a hash: '*'+<40 / '*'+>40 / '*'+40 "
+                "non-hex characters (alone or next to p1 in either form)}, plugin field in {none, mysql_native_password, "
                 "caching_sha2_password}, response in {empty} + {native, sha2} x {this salt, another salt} x {p1, p2, another "
                 "user's password, the text of a stored hash} x {unmodified, one bit flipped, truncated, one byte longer, "
-                "padded}; it checks soundness, completeness, the empty-password rule, order independence of Accept, and "
+                "one NUL byte longer, padded}; it checks soundness, completeness, the empty-password rule, order independence of Accept, and "
                 "emits each decided state with Accept's verdict and the expected answer of each single check function. "
                 "Every case is replayed with seeded concrete salts/passwords on the real selection logic and check functions.",
         "design_ref": "DESIGN.md section 5 C30, section 4.1 Auth",
@@ -25,8 +26,8 @@ MANIFEST = {
     "level_note": "SHA-1 / SHA-256 are not modelled: Native and Sha2 are abstract injective functions in the specification; the "
                   "harness instantiates them with an independent implementation on crypto/sha1 / crypto/sha256 (trusted base) "
                   "and assumes no collisions. A correct sha2 proof for a password stored only as '*'-hash is undecidable for any "
-                  "server and left unconstrained. A 41-character '*' text is always the hash form (a clear-text password of that "
-                  "shape is outside the model). The wire parsing of the handshake packet (readHandshakeResponse, auth switch) "
+                  "server and left unconstrained. '*' + 40 hexadecimal digits is always the hash form (a clear-text password of exactly "
+                  "that shape is outside the model); every other '*'-prefixed text is clear text. The wire parsing of the handshake packet (readHandshakeResponse, auth switch) "
                   "is not covered: the check starts at HandshakeResponseInfo.",
     "technique": "TLA+ spec + TLC exhaustive enumeration; TLC-emitted cases instantiated with the standard library and replayed on the real checks",
 }
@@ -37,6 +38,8 @@ CONSTANTS
   W6 = 4
   MapZeros = 1
   Passwords = {"p1", "p2"}
+  FirstPw = "p1"
+  StarPasswords = {"s:short", "s:long", "s:nonhex"}
   OtherPw = "p3"
   Salts = {"s1", "s2"}
   ServerSalt = "s1"
